@@ -2,6 +2,7 @@ package main
 
 import (
 	"fmt"
+	"math"
 	"math/big"
 	"math/rand"
 	"os"
@@ -75,7 +76,15 @@ type farmEnv struct {
 	burnPre   bool
 	burnQ     bool
 	burnV     bool
+	// negative probing: what the driver itself did to a pool (the projected
+	// state cannot tell a destroyed pool from one that ended by itself)
+	fate map[string]string // pool id -> "destroyed" | "destroyedEarly"
 }
+
+// oddDenoms: plain coins every user holds besides the tracked ones - denoms
+// shaped like a pool share denom for which no liquidity pool exists, and the
+// staking token in another case.  Nothing of the module accepts them.
+var oddDenoms = []string{"lpt-2", "LPT-1"}
 
 func newFarmEnv(fl *drv.Flags, wired bool) *farmEnv {
 	e := &farmEnv{
@@ -97,6 +106,7 @@ func newFarmEnv(fl *drv.Flags, wired bool) *farmEnv {
 		lp:        "lpt-1",
 		feeDen:    "stake",
 		names:     map[string]string{},
+		fate:      map[string]string{},
 		off:       map[string]sdkmath.Int{},
 		donated:   map[string]int64{},
 		initLP:    fl.CfgInt("initlp", 3),
@@ -135,10 +145,15 @@ func newFarmEnv(fl *drv.Flags, wired bool) *farmEnv {
 		}
 		accts["cpsrc"] = s[1:]
 	}
-	for _, u := range append(append([]string{}, e.users...), e.proposers...) {
+	for i, u := range append(append([]string{}, e.users...), e.proposers...) {
 		s := fmt.Sprintf("%d%s", e.initR, e.feeDen)
 		for _, d := range e.rdenoms {
 			s += fmt.Sprintf(",%s%s", scaledR(e.initR), d)
+		}
+		if i < len(e.users) {
+			for _, d := range oddDenoms {
+				s += fmt.Sprintf(",%s%s", new(big.Int).Mul(big.NewInt(e.initLP), e.unit).String(), d)
+			}
 		}
 		accts[u] = s
 	}
@@ -408,6 +423,13 @@ func (e *farmEnv) msgOf(ev chain.M) sdk.Msg {
 			RewardPerBlock: e.coins(chain.Obj(ev, "rpb")), TotalReward: e.coins(chain.Obj(ev, "total")),
 			Editable: chain.Bool(ev, "editable"), Creator: addr,
 		}
+	case "CreatePoolFar":
+		// a start height so far ahead that start + budget/rate leaves int64: MaxInt64 - start
+		return &farmtypes.MsgCreatePool{
+			Description: "p", LptDenom: chain.Str(ev, "lpt"), StartHeight: math.MaxInt64 - chain.Num(ev, "start"),
+			RewardPerBlock: e.coins(chain.Obj(ev, "rpb")), TotalReward: e.coins(chain.Obj(ev, "total")),
+			Editable: chain.Bool(ev, "editable"), Creator: addr,
+		}
 	case "DestroyPool":
 		return &farmtypes.MsgDestroyPool{PoolId: chain.Str(ev, "pool"), Creator: addr}
 	case "AdjustPool":
@@ -419,6 +441,10 @@ func (e *farmEnv) msgOf(ev chain.M) sdk.Msg {
 		return &farmtypes.MsgUnstake{PoolId: chain.Str(ev, "pool"), Amount: e.lpCoin(chain.Num(ev, "amt")), Sender: addr}
 	case "Harvest":
 		return &farmtypes.MsgHarvest{PoolId: chain.Str(ev, "pool"), Sender: addr}
+	case "StakeOther":
+		return &farmtypes.MsgStake{PoolId: chain.Str(ev, "pool"), Amount: e.otherCoin(chain.Str(ev, "lpt"), chain.Num(ev, "amt")), Sender: addr}
+	case "UnstakeOther":
+		return &farmtypes.MsgUnstake{PoolId: chain.Str(ev, "pool"), Amount: e.otherCoin(chain.Str(ev, "lpt"), chain.Num(ev, "amt")), Sender: addr}
 	case "Donate":
 		d := chain.Str(ev, "lpt")
 		coin := sdk.NewInt64Coin(d, chain.Num(ev, "amt"))
@@ -430,6 +456,20 @@ func (e *farmEnv) msgOf(ev chain.M) sdk.Msg {
 		return banktypes.NewMsgSend(c.Accts[who].Addr, chain.ModuleAddr(farmtypes.ModuleName), sdk.NewCoins(coin))
 	}
 	return e.govMsgOf(ev, addr)
+}
+
+// otherCoin: k units of a denom that is not the staking token, in the amounts a
+// user can pay (so that only the module's own check stands between the message
+// and the pool): reward denoms in reward units, the fee denom as it is,
+// anything else - the plain coins shaped like share denoms - in LP units.
+func (e *farmEnv) otherCoin(d string, k int64) sdk.Coin {
+	switch {
+	case e.isR[d]:
+		return sdk.Coin{Denom: d, Amount: sdkmath.NewIntFromBigInt(new(big.Int).Mul(big.NewInt(k), e.rk))}
+	case d == e.feeDen:
+		return sdk.Coin{Denom: d, Amount: sdkmath.NewInt(k)}
+	}
+	return sdk.Coin{Denom: d, Amount: sdkmath.NewIntFromBigInt(new(big.Int).Mul(big.NewInt(k), e.unit))}
 }
 
 func farmEvent(name, who, pool string, amt int64) chain.M {
@@ -474,12 +514,12 @@ func (e *farmEnv) rewardOf(r chain.TxResult, name string) chain.M {
 	}
 	var cs sdk.Coins
 	switch name {
-	case "Stake":
+	case "Stake", "StakeOther":
 		var resp farmtypes.MsgStakeResponse
 		if err := resp.Unmarshal(r.MsgResps[0].Value); err == nil {
 			cs = resp.Reward
 		}
-	case "Unstake":
+	case "Unstake", "UnstakeOther":
 		var resp farmtypes.MsgUnstakeResponse
 		if err := resp.Unmarshal(r.MsgResps[0].Value); err == nil {
 			cs = resp.Reward
@@ -615,6 +655,12 @@ func (e *farmEnv) runBlock(pending []chain.M, w *chain.TraceWriter) bool {
 		if name == "Donate" && r.OK {
 			e.donated[chain.Str(ev, "lpt")] += chain.Num(ev, "amt")
 		}
+		if name == "DestroyPool" && r.OK {
+			e.fate[chain.Str(ev, "pool")] = "destroyed"
+			if pl, ok := poolsOf(e.last)[chain.Str(ev, "pool")].(chain.M); ok && chain.Num(pl, "start") > chain.Num(e.last, "h") {
+				e.fate[chain.Str(ev, "pool")] = "destroyedEarly"
+			}
+		}
 		// donations are environment actions known to the driver, not to the store:
 		// every logged state carries the driver's running tally
 		st = e.withDonated(st)
@@ -676,35 +722,88 @@ func farmRun(fl *drv.Flags, beh []chain.M, w *chain.TraceWriter, epilogue bool) 
 		}
 	}
 	if epilogue {
-		e.epilogue(w)
+		e.epilogue(w, int(fl.CfgInt("epirun", 8)))
 	}
 }
 
-// epilogue: every farmer withdraws everything (C05_Epilogue) — first half of
-// the stake now, the rest one block later.
-func (e *farmEnv) epilogue(w *chain.TraceWriter) {
-	for round := 0; round < 2; round++ {
-		var pending []chain.M
-		fi := e.last["fi"].(chain.M)
-		for _, p := range chain.SortedKeys(fi) {
-			infos := fi[p].(chain.M)
-			for _, u := range chain.SortedKeys(infos) {
-				locked := infos[u].(chain.M)["locked"].(int64)
-				amt := locked
-				if round == 0 && locked > 1 {
-					amt = locked / 2
-				}
-				if amt > 0 {
-					pending = append(pending, farmEvent("Unstake", u, p, amt))
-				}
+// lenient readers of the projected state: a broken tree may produce anything
+func poolsOf(st chain.M) chain.M {
+	m, _ := st["pools"].(chain.M)
+	return m
+}
+
+func infosOf(st chain.M, p string) chain.M {
+	fi, _ := st["fi"].(chain.M)
+	m, _ := fi[p].(chain.M)
+	return m
+}
+
+func lockedOf(st chain.M, p, u string) int64 {
+	in, _ := infosOf(st, p)[u].(chain.M)
+	return chain.Num(in, "locked")
+}
+
+// queuedAhead: does the real active-pool queue hold an entry at or after h?
+func queuedAhead(st chain.M) bool {
+	q, _ := st["queue"].([]any)
+	h := chain.Num(st, "h")
+	for _, x := range q {
+		if pr, ok := x.([]any); ok && len(pr) == 2 {
+			if qh, ok := pr[0].(int64); ok && qh >= h {
+				return true
 			}
 		}
+	}
+	return false
+}
+
+// withdrawals: one Unstake per farmer record of the REAL chain state (the last
+// projection, never what the model expected): part = 0 everything, else the
+// part-th part of the stake (at least 1).
+func (e *farmEnv) withdrawals(part int64) []chain.M {
+	var pending []chain.M
+	fi, _ := e.last["fi"].(chain.M)
+	for _, p := range chain.SortedKeys(fi) {
+		infos, _ := fi[p].(chain.M)
+		for _, u := range chain.SortedKeys(infos) {
+			locked := lockedOf(e.last, p, u)
+			amt := locked
+			if part > 1 && locked > 1 {
+				amt = (locked + part - 1) / part
+			}
+			if amt > 0 {
+				pending = append(pending, farmEvent("Unstake", u, p, amt))
+			}
+		}
+	}
+	return pending
+}
+
+// epilogue: every farmer withdraws everything (C05_Epilogue), at different
+// heights: half of every recorded stake in the next block, half of the rest one
+// block later; then - runTo > 0 - the pools run to their ends (blocks until
+// the real queue holds nothing ahead, at most runTo of them: the end-block
+// refunds of whatever the history left behind, also of a pool that a wrongly
+// accepted message put back into the queue); finally everything that the real
+// chain still records is withdrawn, after the pools have ended.  All of it is
+// read from the projection of the real stores.
+func (e *farmEnv) epilogue(w *chain.TraceWriter, runTo int) {
+	for round := 0; round < 2; round++ {
+		pending := e.withdrawals(2)
 		if len(pending) == 0 {
-			return
+			break
 		}
 		if !e.runBlock(pending, w) {
 			return
 		}
+	}
+	for ; runTo > 0 && queuedAhead(e.last); runTo-- {
+		if !e.runBlock(nil, w) {
+			return
+		}
+	}
+	if pending := e.withdrawals(0); len(pending) > 0 {
+		e.runBlock(pending, w)
 	}
 }
 
@@ -742,6 +841,9 @@ func farmRandom(fl *drv.Flags, rng *rand.Rand, w *chain.TraceWriter) {
 	w.Write(farmEvent("Init", "", "", 0), e.last)
 	maxPools := int(fl.CfgInt("maxpools", 2))
 	reimports := fl.CfgInt("reimport", 0) == 1
+	// probe=<pct>: share of the blocks that carry a burst of operations aimed at a pool
+	// picked by life-cycle state (negative probing), half as many an input of the wrong kind
+	probe := int(fl.CfgInt("probe", 0))
 	blocks := fl.Len
 	for b := 0; b < blocks; b++ {
 		var pending []chain.M
@@ -773,6 +875,13 @@ func farmRandom(fl *drv.Flags, rng *rand.Rand, w *chain.TraceWriter) {
 					pending = append(pending, farmEvent("Stake", e.users[rng.Intn(len(e.users))], p, int64(1+rng.Intn(2))))
 				}
 			}
+		}
+		created := int64(0)
+		if len(ids) > 0 && rng.Intn(100) < probe {
+			pending = append(pending, e.probeBurst(rng)...)
+		}
+		if len(ids) > 0 && rng.Intn(100) < probe/2 {
+			pending = append(pending, e.oddInput(rng, pick()))
 		}
 		for j := 0; j < n; j++ {
 			u := e.users[rng.Intn(len(e.users))]
@@ -813,7 +922,19 @@ func farmRandom(fl *drv.Flags, rng *rand.Rand, w *chain.TraceWriter) {
 					ev["start"] = h + int64(rng.Intn(2))
 				}
 				ev["editable"] = rng.Intn(4) != 0
+				if probe > 0 && !e.mag && rng.Intn(4) == 0 {
+					// a start far enough ahead for a whole life before it
+					ev["start"] = h + int64(3+rng.Intn(3))
+				}
 				pending = append(pending, ev)
+				if probe > 0 && rng.Intn(3) == 0 {
+					// operations on the pool in the very block that creates it: its id is
+					// the next sequence number (when an earlier creation of the block fails
+					// the id names another pool or none - the specification follows either way)
+					id := fmt.Sprintf("farm-%d", chain.Num(e.last, "seq")+1+created)
+					pending = append(pending, e.probeOps(rng, id, u, 1+rng.Intn(2))...)
+				}
+				created++
 			case len(ids) == 0:
 				continue
 			case x < 9:
@@ -821,14 +942,16 @@ func farmRandom(fl *drv.Flags, rng *rand.Rand, w *chain.TraceWriter) {
 			case x < 13:
 				p := pick()
 				amt := int64(1 + rng.Intn(3))
-				if infos, ok := e.last["fi"].(chain.M)[p].(chain.M); ok {
-					if in, ok := infos[u].(chain.M); ok && rng.Intn(3) > 0 {
-						amt = 1 + rng.Int63n(in["locked"].(int64))
-					}
+				if l := lockedOf(e.last, p, u); l > 0 && rng.Intn(3) > 0 {
+					amt = 1 + rng.Int63n(l)
 				}
 				pending = append(pending, farmEvent("Unstake", u, p, amt))
 			case x < 16:
-				pending = append(pending, farmEvent("Harvest", u, pick(), 0))
+				p := pick()
+				if probe > 0 && rng.Intn(3) > 0 {
+					u = e.roleUser(rng, p, "staker")
+				}
+				pending = append(pending, farmEvent("Harvest", u, p, 0))
 			case x < 19:
 				p := pick()
 				who := u
@@ -884,7 +1007,268 @@ func farmRandom(fl *drv.Flags, rng *rand.Rand, w *chain.TraceWriter) {
 			}
 		}
 	}
-	e.epilogue(w)
+	e.epilogue(w, int(fl.CfgInt("epirun", 0)))
+}
+
+// ---------------------------------------------------------------------------
+// Negative probing (random driver): every message type on pools in every
+// life-cycle state, by every role, at every timing; inputs of the wrong kind.
+
+// classes sorts the pools of the last observed state by life-cycle state.  A
+// pool can be in several classes (e.g. running and in its last block).
+func (e *farmEnv) classes() map[string][]string {
+	out := map[string][]string{}
+	h := chain.Num(e.last, "h")
+	queued := map[string]bool{}
+	if q, ok := e.last["queue"].([]any); ok {
+		for _, x := range q {
+			if pr, ok := x.([]any); ok && len(pr) == 2 {
+				if id, ok := pr[1].(string); ok {
+					queued[id] = true
+				}
+			}
+		}
+	}
+	pools := poolsOf(e.last)
+	for _, p := range chain.SortedKeys(pools) {
+		pl, _ := pools[p].(chain.M)
+		start, end, total := chain.Num(pl, "start"), chain.Num(pl, "end"), chain.Num(pl, "total")
+		add := func(c string) { out[c] = append(out[c], p) }
+		switch {
+		case e.fate[p] != "":
+			add(e.fate[p]) // destroyed | destroyedEarly
+			if total > 0 {
+				add("destroyedStaked")
+			}
+		case !queued[p]:
+			add("ended")
+			if total > 0 {
+				add("endedStaked")
+			}
+		case start > h:
+			add("notStarted")
+			if start == h+1 {
+				add("startsNext")
+			}
+		case total > 0:
+			add("running")
+		default:
+			add("runningEmpty")
+		}
+		if queued[p] && start == h {
+			add("startBlock")
+		}
+		if queued[p] && end == h {
+			add("lastBlock")
+		}
+		if !queued[p] && end == h-1 {
+			add("justOver")
+		}
+		if Str := chain.Str(pl, "creator"); Str == "feepool" {
+			add("govOwned")
+		}
+	}
+	return out
+}
+
+// roleUser picks a user by role towards pool p: the creator, a farmer with a
+// stake in it, a user with neither (a stranger); falls back to any user.
+func (e *farmEnv) roleUser(rng *rand.Rand, p, role string) string {
+	pl, _ := poolsOf(e.last)[p].(chain.M)
+	creator := chain.Str(pl, "creator")
+	var with, without []string
+	for _, u := range e.users {
+		switch {
+		case lockedOf(e.last, p, u) > 0:
+			with = append(with, u)
+		case u != creator:
+			without = append(without, u)
+		}
+	}
+	any := e.users[rng.Intn(len(e.users))]
+	switch role {
+	case "creator":
+		if _, ok := e.c.Accts[creator]; ok && creator != "" {
+			return creator
+		}
+	case "staker":
+		if len(with) > 0 {
+			return with[rng.Intn(len(with))]
+		}
+	case "stranger":
+		if len(without) > 0 {
+			return without[rng.Intn(len(without))]
+		}
+	}
+	return any
+}
+
+var probeRoles = []string{"creator", "staker", "stranger", "any"}
+
+// probeOps: n operations of every kind on pool p (which need not exist yet).
+func (e *farmEnv) probeOps(rng *rand.Rand, p, creator string, n int) []chain.M {
+	var out []chain.M
+	pl, _ := poolsOf(e.last)[p].(chain.M)
+	rules, _ := pl["rules"].(chain.M)
+	rdenoms := chain.SortedKeys(rules)
+	if len(rdenoms) == 0 {
+		rdenoms = e.rdenoms
+	}
+	for i := 0; i < n; i++ {
+		role := probeRoles[rng.Intn(len(probeRoles))]
+		who := e.roleUser(rng, p, role)
+		if pl == nil && role == "creator" {
+			who = creator
+		}
+		rate := int64(1 + rng.Intn(4))
+		if e.mag {
+			rate = e.grain * int64(1+rng.Intn(3))
+		}
+		switch rng.Intn(9) {
+		case 0, 1:
+			out = append(out, farmEvent("Stake", who, p, int64(1+rng.Intn(2))))
+		case 2, 3:
+			amt := int64(1 + rng.Intn(2))
+			if l := lockedOf(e.last, p, who); l > 0 {
+				amt = []int64{l, 1 + rng.Int63n(l), l + 1}[rng.Intn(3)]
+			}
+			out = append(out, farmEvent("Unstake", who, p, amt))
+		case 4:
+			out = append(out, farmEvent("Harvest", who, p, 0))
+		case 5:
+			ev := farmEvent("AdjustPool", who, p, 0)
+			ev["total"] = chain.M{rdenoms[rng.Intn(len(rdenoms))]: int64(1 + rng.Intn(4))}
+			out = append(out, ev)
+		case 6:
+			ev := farmEvent("AdjustPool", who, p, 0)
+			ev["rpb"] = chain.M{rdenoms[rng.Intn(len(rdenoms))]: rate}
+			out = append(out, ev)
+		case 7:
+			out = append(out, farmEvent("DestroyPool", who, p, 0))
+		default:
+			nm := []string{"StakeOther", "UnstakeOther"}[rng.Intn(2)]
+			ev := farmEvent(nm, who, p, int64(1+rng.Intn(2)))
+			ev["lpt"] = e.oddDenom(rng)
+			out = append(out, ev)
+		}
+	}
+	return out
+}
+
+func (e *farmEnv) oddDenom(rng *rand.Rand) string {
+	ds := append(append([]string{e.feeDen}, e.rdenoms...), oddDenoms...)
+	return ds[rng.Intn(len(ds))]
+}
+
+// probeBurst: a life-cycle class first, then a pool of it, then one to three
+// operations; in one burst of five on a live editable pool the transition
+// itself (the creator's destroy) goes into the same block, ahead of the
+// operations.
+func (e *farmEnv) probeBurst(rng *rand.Rand) []chain.M {
+	cl := e.classes()
+	names := chain.SortedKeys(cl)
+	if len(names) == 0 {
+		return nil
+	}
+	c := names[rng.Intn(len(names))]
+	p := cl[c][rng.Intn(len(cl[c]))]
+	var out []chain.M
+	pl, _ := poolsOf(e.last)[p].(chain.M)
+	creator := chain.Str(pl, "creator")
+	switch c {
+	case "notStarted", "startsNext", "running", "runningEmpty", "startBlock", "lastBlock":
+		if _, ok := e.c.Accts[creator]; ok && chain.Bool(pl, "editable") && rng.Intn(5) == 0 {
+			out = append(out, farmEvent("DestroyPool", creator, p, 0))
+		}
+	}
+	return append(out, e.probeOps(rng, p, creator, 1+rng.Intn(3))...)
+}
+
+// oddInput: one message with an identifier or denom of the wrong kind - a pool
+// id that is a prefix / extension / other spelling of a real one or belongs to
+// another kind of object, a staking coin that is not the staking token, a
+// staking token that no liquidity pool stands behind, reward coins in denoms
+// the pool does not pay.
+func (e *farmEnv) oddInput(rng *rand.Rand, p string) chain.M {
+	u := e.users[rng.Intn(len(e.users))]
+	num := strings.TrimPrefix(p, "farm-")
+	oddIDs := []string{"farm-", num, "farm-0" + num, p + "0", "Farm-" + num, "FARM-" + num, "farm-0", e.lp, " " + p, p[:len(p)-1]}
+	switch rng.Intn(4) {
+	case 0:
+		id := oddIDs[rng.Intn(len(oddIDs))]
+		who := e.roleUser(rng, p, probeRoles[rng.Intn(len(probeRoles))])
+		switch rng.Intn(4) {
+		case 0:
+			return farmEvent("Stake", who, id, 1)
+		case 1:
+			amt := int64(1)
+			if l := lockedOf(e.last, p, who); l > 0 {
+				amt = l
+			}
+			return farmEvent("Unstake", who, id, amt)
+		case 2:
+			return farmEvent("Harvest", who, id, 0)
+		}
+		return farmEvent("DestroyPool", who, id, 0)
+	case 1:
+		who := e.roleUser(rng, p, []string{"staker", "any"}[rng.Intn(2)])
+		nm := []string{"StakeOther", "UnstakeOther", "UnstakeOther"}[rng.Intn(3)]
+		amt := int64(1 + rng.Intn(2))
+		if l := lockedOf(e.last, p, who); l > 0 && nm == "UnstakeOther" {
+			amt = l
+		}
+		ev := farmEvent(nm, who, p, amt)
+		ev["lpt"] = e.oddDenom(rng)
+		return ev
+	case 2:
+		ev := farmEvent("CreatePool", u, "", 0)
+		d := e.rdenoms[rng.Intn(len(e.rdenoms))]
+		r := int64(1 + rng.Intn(3))
+		if e.mag {
+			r = e.grain
+		}
+		ev["total"], ev["rpb"] = chain.M{d: r * 3}, chain.M{d: r}
+		ev["lpt"] = append([]string{e.feeDen, e.rdenoms[0], "lpt-11", "lpt-", "lpt-0"}, oddDenoms...)[rng.Intn(5+len(oddDenoms))]
+		ev["start"] = chain.Num(e.last, "h") + int64(rng.Intn(2))
+		ev["editable"] = true
+		switch rng.Intn(4) {
+		case 0:
+			// a staking token that exists, a start height that does not do: in the past, zero, or
+			// so far ahead that the end height leaves int64
+			ev["lpt"] = e.lp
+			ev["start"] = []int64{chain.Num(e.last, "h") - 1, 0, 1}[rng.Intn(3)]
+			if chain.Num(ev, "start") == 1 {
+				ev["name"] = "CreatePoolFar"
+			}
+		}
+		return ev
+	}
+	// the creator adjusts with coins the pool does not pay
+	pl, _ := poolsOf(e.last)[p].(chain.M)
+	rules, _ := pl["rules"].(chain.M)
+	who := e.roleUser(rng, p, "creator")
+	var cand []string
+	for _, d := range append(append([]string{e.feeDen, e.lp}, e.rdenoms...), oddDenoms...) {
+		if _, has := rules[d]; !has {
+			cand = append(cand, d)
+		}
+	}
+	ev := farmEvent("AdjustPool", who, p, 0)
+	d := cand[rng.Intn(len(cand))]
+	coins := chain.M{d: int64(1)}
+	if rng.Intn(2) == 0 {
+		// together with a denom the pool does pay
+		for _, r := range chain.SortedKeys(rules) {
+			coins[r] = int64(1)
+			break
+		}
+	}
+	if rng.Intn(2) == 0 {
+		ev["total"] = coins
+	} else {
+		ev["rpb"] = coins
+	}
+	return ev
 }
 
 func farmInvariant(k farmkeeper.Keeper, ctx sdk.Context) (string, bool) {
